@@ -6,6 +6,7 @@ import (
 	"context"
 	"errors"
 	"net"
+	"sync"
 	"time"
 )
 
@@ -33,7 +34,7 @@ func (r *vpResolver) LookupIPAddr(ctx context.Context, host string) ([]net.IPAdd
 // covers every history and every interleaving at lock granularity.
 func vp_C19_dnscache_step() {
 	now0 := time.Now()
-	size := vpNondetInt("size", 1, 3)
+	size := vpNondetInt("size", 0, 3)
 	dur := time.Duration(vpNondetInt("duration_s", 1, 1000)) * time.Second
 	res := &vpResolver{fail: vpNondetBool("resolver_fails")}
 	c := &DNSCache{resolver: res, size: size, duration: dur, entries: map[string]*dnsCacheEntry{}}
@@ -44,18 +45,18 @@ func vp_C19_dnscache_step() {
 			// expiry: anywhere up to (strictly before) now+duration - entries are created with expires = then+duration
 			// and the clock has advanced since
 			off := time.Duration(vpNondetInt("expiry_off"+string(rune('0'+i)), -2000, 1000)) * time.Second
-			vpAssume(off < dur)
+			vpAssume(off <= dur) // equal: stored within the same clock tick (fixed: KF-C19-1 - the eviction loop then never ended)
 			c.entries[h] = &dnsCacheEntry{addrs: []net.IPAddr{{IP: net.IPv4(10, 0, 0, h[0])}}, expires: now0.Add(off)}
 		}
 	}
-	vpAssume(len(c.entries) <= size) // representation invariant
+	vpAssume(len(c.entries) <= size || (size == 0 && len(c.entries) <= 1)) // representation invariant (a cache of size 0 behaves as size 1)
 	name := hosts[vpNondetInt("lookup", 0, 2)]
 	pre, hadEntry := c.entries[name]
 
 	entry, cached := c.lookup(context.Background(), name)
 	after := time.Now()
 
-	vpAssert("size-bound", len(c.entries) <= size)
+	vpAssert("size-bound", len(c.entries) <= size || (size == 0 && len(c.entries) <= 1))
 	if cached {
 		vpAssert("hit-is-the-stored-entry", hadEntry && entry == pre)
 		vpAssert("hit-for-same-host", entry.addrs[0].IP[len(entry.addrs[0].IP)-1] == name[0])
@@ -74,4 +75,62 @@ func vp_C19_dnscache_step() {
 	vpReach("hit", cached)
 	vpReach("miss-stored", !cached && entry != nil)
 	vpReach("evicted", !cached && entry != nil && len(c.entries) == size)
+}
+
+// vpYieldResolver lets the other goroutines run while a lookup is in the resolver (the cache lock is released there).
+type vpYieldResolver struct{ calls int }
+
+func (r *vpYieldResolver) LookupIPAddr(ctx context.Context, host string) ([]net.IPAddr, error) {
+	r.calls++
+	vpGoSched()
+	return []net.IPAddr{{IP: net.IPv4(10, 0, 0, host[0])}}, nil
+}
+
+// vp:check C19 both configs=size:1|2;lookups:2|3 K=24 timeout=1200 clock=ticking
+// vp_C19_dnscache_concurrent: two or three goroutines look up host names (chosen among a, b, c) through
+// one cache of size 1 or 2, optionally pre-filled with one (valid or expired) entry; while one lookup is in the resolver - where the cache
+// lock is released - the others run (each of them yielding in the resolver in turn), in every order. Afterwards the
+// cache holds at most `size` entries, every caller got the addresses of the host it asked for, and every stored entry
+// belongs to its key. Goroutines are sequentialised non-preemptively (switches at the resolver call and at completion).
+func vp_C19_dnscache_concurrent() {
+	size := vpConfigInt("size")
+	k := vpConfigInt("lookups")
+	res := &vpYieldResolver{}
+	c := &DNSCache{resolver: res, size: size, duration: time.Minute, entries: map[string]*dnsCacheEntry{}}
+	switch vpChoice("prefilled", "no", "a-valid", "a-expired", "c-valid") {
+	case "a-valid":
+		c.entries["a"] = &dnsCacheEntry{addrs: []net.IPAddr{{IP: net.IPv4(10, 0, 0, 'a')}}, expires: time.Now().Add(30 * time.Second)}
+	case "a-expired":
+		c.entries["a"] = &dnsCacheEntry{addrs: []net.IPAddr{{IP: net.IPv4(10, 0, 0, 'a')}}, expires: time.Now().Add(-30 * time.Second)}
+	case "c-valid":
+		c.entries["c"] = &dnsCacheEntry{addrs: []net.IPAddr{{IP: net.IPv4(10, 0, 0, 'c')}}, expires: time.Now().Add(30 * time.Second)}
+	}
+	names := make([]string, k)
+	got := make([]*dnsCacheEntry, k)
+	for i := 0; i < k; i++ {
+		names[i] = vpChoice("lookup"+string(rune('0'+i)), "a", "b", "c")
+	}
+	var wg sync.WaitGroup
+	for i := 0; i < k; i++ {
+		wg.Add(1)
+		go func(i int) {
+			defer wg.Done()
+			got[i], _ = c.lookup(context.Background(), names[i])
+		}(i)
+	}
+	wg.Wait()
+	c.mutex.Lock()
+	n := len(c.entries)
+	for h, e := range c.entries {
+		vpAssert("entry-belongs-to-its-key", e.addrs[0].IP[len(e.addrs[0].IP)-1] == h[0])
+	}
+	c.mutex.Unlock()
+	vpAssert("size-bound", n <= size)
+	for i := 0; i < k; i++ {
+		vpAssert("caller-got-an-answer", got[i] != nil)
+		if got[i] != nil {
+			vpAssert("answer-for-the-host-asked", got[i].addrs[0].IP[len(got[i].addrs[0].IP)-1] == names[i][0])
+		}
+	}
+	vpReach("done", true)
 }
